@@ -53,15 +53,15 @@ impl HttpRequest {
     }
     pub async fn write_to(&self, socket: Writer<'_>) -> Result<(), Error> {
         let buf = format!("{} {} {}\r\n", self.method, self.resource, self.version);
-        socket.write(buf.as_bytes()).await.context("write error")?;
+        socket.write_all(buf.as_bytes()).await.context("write error")?;
         for (k, v) in &self.headers {
             socket
-                .write(format!("{}: {}\r\n", k, v).as_bytes())
+                .write_all(format!("{}: {}\r\n", k, v).as_bytes())
                 .await
                 .context("write error")?;
         }
         socket
-            .write("\r\n".as_bytes())
+            .write_all("\r\n".as_bytes())
             .await
             .context("write error")?;
         socket.flush().await.context("flush")
@@ -129,23 +129,23 @@ impl HttpResponse {
     }
     pub async fn write_to(&self, socket: Writer<'_>) -> Result<(), Error> {
         let buf = format!("{} {} {}\r\n", self.version, self.code, self.status);
-        socket.write(buf.as_bytes()).await.context("write error")?;
+        socket.write_all(buf.as_bytes()).await.context("write error")?;
         for (k, v) in &self.headers {
             socket
-                .write(format!("{}: {}\r\n", k, v).as_bytes())
+                .write_all(format!("{}: {}\r\n", k, v).as_bytes())
                 .await
                 .context("write error")?;
         }
         socket
-            .write("\r\n".as_bytes())
+            .write_all("\r\n".as_bytes())
             .await
             .context("write error")?;
         socket.flush().await.context("flush")
     }
     pub async fn write_with_body(&self, socket: Writer<'_>, body: &[u8]) -> Result<(), Error> {
         self.write_to(socket).await?;
-        socket.write(body).await.context("write error")?;
-        Ok(())
+        socket.write_all(body).await.context("write error")?;
+        socket.flush().await.context("flush")
     }
     pub fn header<'a, 'b: 'a>(&'a self, name: &str, def: &'b str) -> &'a str {
         self.headers
